@@ -1,3 +1,6 @@
+gen/ActiveTagTables.vo gen/ActiveTagTables.glob gen/ActiveTagTables.v.beautified gen/ActiveTagTables.required_vo: gen/ActiveTagTables.v theories/Base.vo
+gen/ActiveTagTables.vio: gen/ActiveTagTables.v theories/Base.vio
+gen/ActiveTagTables.vos gen/ActiveTagTables.vok gen/ActiveTagTables.required_vos: gen/ActiveTagTables.v theories/Base.vos
 gen/StatusTable.vo gen/StatusTable.glob gen/StatusTable.v.beautified gen/StatusTable.required_vo: gen/StatusTable.v theories/Base.vo theories/Status.vo
 gen/StatusTable.vio: gen/StatusTable.v theories/Base.vio theories/Status.vio
 gen/StatusTable.vos gen/StatusTable.vok gen/StatusTable.required_vos: gen/StatusTable.v theories/Base.vos theories/Status.vos
@@ -7,6 +10,12 @@ gen/SummaryTables.vos gen/SummaryTables.vok gen/SummaryTables.required_vos: gen/
 gen/UnicodeTables.vo gen/UnicodeTables.glob gen/UnicodeTables.v.beautified gen/UnicodeTables.required_vo: gen/UnicodeTables.v theories/Base.vo
 gen/UnicodeTables.vio: gen/UnicodeTables.v theories/Base.vio
 gen/UnicodeTables.vos gen/UnicodeTables.vok gen/UnicodeTables.required_vos: gen/UnicodeTables.v theories/Base.vos
+theories/ActiveTag.vo theories/ActiveTag.glob theories/ActiveTag.v.beautified theories/ActiveTag.required_vo: theories/ActiveTag.v theories/Base.vo theories/UStr.vo gen/UnicodeTables.vo gen/ActiveTagTables.vo
+theories/ActiveTag.vio: theories/ActiveTag.v theories/Base.vio theories/UStr.vio gen/UnicodeTables.vio gen/ActiveTagTables.vio
+theories/ActiveTag.vos theories/ActiveTag.vok theories/ActiveTag.required_vos: theories/ActiveTag.v theories/Base.vos theories/UStr.vos gen/UnicodeTables.vos gen/ActiveTagTables.vos
+theories/ActiveTagProofs.vo theories/ActiveTagProofs.glob theories/ActiveTagProofs.v.beautified theories/ActiveTagProofs.required_vo: theories/ActiveTagProofs.v theories/Base.vo theories/UStr.vo theories/TagExpr.vo theories/TagExprProofs.vo theories/ActiveTag.vo gen/UnicodeTables.vo gen/ActiveTagTables.vo
+theories/ActiveTagProofs.vio: theories/ActiveTagProofs.v theories/Base.vio theories/UStr.vio theories/TagExpr.vio theories/TagExprProofs.vio theories/ActiveTag.vio gen/UnicodeTables.vio gen/ActiveTagTables.vio
+theories/ActiveTagProofs.vos theories/ActiveTagProofs.vok theories/ActiveTagProofs.required_vos: theories/ActiveTagProofs.v theories/Base.vos theories/UStr.vos theories/TagExpr.vos theories/TagExprProofs.vos theories/ActiveTag.vos gen/UnicodeTables.vos gen/ActiveTagTables.vos
 theories/Base.vo theories/Base.glob theories/Base.v.beautified theories/Base.required_vo: theories/Base.v 
 theories/Base.vio: theories/Base.v 
 theories/Base.vos theories/Base.vok theories/Base.required_vos: theories/Base.v 
@@ -124,3 +133,6 @@ props/C17.vos props/C17.vok props/C17.required_vos: props/C17.v theories/Base.vo
 props/C18.vo props/C18.glob props/C18.v.beautified props/C18.required_vo: props/C18.v theories/Base.vo theories/Capture.vo theories/CaptureProofs.vo
 props/C18.vio: props/C18.v theories/Base.vio theories/Capture.vio theories/CaptureProofs.vio
 props/C18.vos props/C18.vok props/C18.required_vos: props/C18.v theories/Base.vos theories/Capture.vos theories/CaptureProofs.vos
+props/C19.vo props/C19.glob props/C19.v.beautified props/C19.required_vo: props/C19.v theories/Base.vo theories/UStr.vo theories/ActiveTag.vo theories/ActiveTagProofs.vo
+props/C19.vio: props/C19.v theories/Base.vio theories/UStr.vio theories/ActiveTag.vio theories/ActiveTagProofs.vio
+props/C19.vos props/C19.vok props/C19.required_vos: props/C19.v theories/Base.vos theories/UStr.vos theories/ActiveTag.vos theories/ActiveTagProofs.vos
